@@ -132,17 +132,30 @@ def gen_dict(r, depth, nulls=False, max_keys=4):
 
 
 def _denull(v):
+    """below a last-applied-directed key: no explicit null, and no keyed declaration on a value that is not
+    a list of maps (both compare equal to the `None` that the aliased `last_applied_value[key] = None` plants)"""
     if isinstance(v, dict):
-        return {k: _denull(x) for k, x in v.items()}
+        out = {k: _denull(x) for k, x in v.items()}
+        m = out.get(AS_MAP)
+        if isinstance(m, dict):
+            keep = {k: f for k, f in m.items()
+                    if not (k in out and not (isinstance(out[k], list) and all(isinstance(y, dict) for y in out[k])))}
+            if keep:
+                out[AS_MAP] = keep
+            else:
+                del out[AS_MAP]
+        return out
     if isinstance(v, list):
         return [_denull(x) for x in v]
     return "n" if v is None else v
 
 
 def denull_under_la(v):
-    """no explicit null *below* a last-applied-directed key: there the code compares the last-applied
-    value with itself (aliased), and its `last_applied_value[key] = None` makes a missing key read as
-    null — outside both properties (C04: no explicit nulls; C05: those keys are excluded), not modelled"""
+    """below a last-applied-directed key the code compares the last-applied value with itself (aliased), and its
+    `last_applied_value[key] = None` makes a key the last-applied tree lacks read as null on the "actual" side
+    too.  That matches a target `null` and a (malformed) keyed declaration on a non-list — outside both
+    properties (C04: no explicit nulls, well-formed directives; C05: those keys are excluded), not modelled:
+    the generators keep both out of last-applied-directed subtrees"""
     if isinstance(v, list):
         return [denull_under_la(x) for x in v]
     if not isinstance(v, dict):
